@@ -2,6 +2,7 @@
 //! See /verif/DESIGN.md. Invoked through /verif/bin/check.
 
 mod c01;
+mod c05;
 mod c08;
 mod c09;
 mod c12;
@@ -18,7 +19,7 @@ mod val;
 use common::*;
 
 fn all_families() -> Vec<Box<dyn Family>> {
-  vec![Box::new(c08::C08), Box::new(c18::C18), Box::new(c09::C09), Box::new(c12::C12), Box::new(thr_ops::C19Ops), Box::new(thr_ops::C19Subjects), Box::new(thr_ops::C11), Box::new(timed::C16), Box::new(timed::C15), Box::new(c01::C01)]
+  vec![Box::new(c08::C08), Box::new(c18::C18), Box::new(c09::C09), Box::new(c12::C12), Box::new(thr_ops::C19Ops), Box::new(thr_ops::C19Subjects), Box::new(thr_ops::C11), Box::new(timed::C16), Box::new(timed::C15), Box::new(c01::C01), Box::new(c05::C05Seq), Box::new(c05::C05Thr)]
 }
 
 fn spec_for(prop: &str) -> Option<CheckSpec> {
@@ -34,6 +35,22 @@ fn spec_for(prop: &str) -> Option<CheckSpec> {
         "single driver task: the sequential interleavings of several hot sources' scripts are the generated step order".into(),
       ],
       families: vec![FamilySpec { fam: Box::new(c01::C01), quick_runs: 400_000, thorough_runs: 6_000_000 }],
+      quick_cap_s: 60,
+      thorough_cap_s: 900,
+    }),
+    "C05" => Some(CheckSpec {
+      property: "C05",
+      level: "exploration",
+      rule: format!("sequential family: {}; threaded family: {}", seq_rule, threaded_rule),
+      assumptions: vec![
+        "conservative stamps: a delivery is flagged only if the source emission that caused it started after unsubscribe() had returned".into(),
+        "is_subscribed() is sampled after subscribe, after every driver step and after unsubscribe; it is not asserted inside a terminal callback".into(),
+        "premise: well-formed sources; blocked runs are left to C07".into(),
+      ],
+      families: vec![
+        FamilySpec { fam: Box::new(c05::C05Seq), quick_runs: 300_000, thorough_runs: 5_000_000 },
+        FamilySpec { fam: Box::new(c05::C05Thr), quick_runs: 100_000, thorough_runs: 2_000_000 },
+      ],
       quick_cap_s: 60,
       thorough_cap_s: 900,
     }),
